@@ -58,7 +58,7 @@ def cases(tier, seed):
 def build(case, terms, weight=1.0):
     kind, d, n_out = case["kind"], case["d"], case["n_out"]
     u, coef, expo = L.make_u(kind, d, n_out, deg=2)
-    params = jinns.parameters.Params(nn_params=u.init_params(), eq_params={"a": jnp.asarray(0.7), "b": jnp.asarray(-0.4)})
+    params = jinns.parameters.Params(nn_params=u.init_params(), eq_params={"b": jnp.asarray(-0.4), "a": jnp.asarray(0.7)})  # non-alphabetical insertion
     dyn = L.user_eq(kind, case["ncomp"]) if "dyn" in terms else None
     nv = L.nvar_of(kind, d)
     pts = L.points(case["b"], nv)
@@ -92,6 +92,9 @@ def build(case, terms, weight=1.0):
     obs = None
     if "obs" in terms:
         obs = {"pinn_in": jnp.asarray(L.points(case["b"], nv, salt=7)), "val": jnp.asarray(np.linspace(0.1, 0.9, case["b"] * n_out).reshape(case["b"], n_out)), "eq_params": {}}
+        if case.get("ncomp", 1) == 3:
+            # the observations come with an observed column of 'b' (used by the equation): it concerns the observation term only
+            obs["eq_params"] = {"b": jnp.asarray(np.linspace(2.0, 3.0, case["b"])[:, None])}
     batch = L.make_batch(kind, pts, border=border, obs=obs)
     return loss, params, batch, (coef, expo, pts)
 
@@ -110,9 +113,14 @@ def run_case(case):
     v = []
     if case["type"] == "subset":
         terms = case["terms"]
+        v = []
         loss, params, batch, (coef, expo, pts) = build(case, terms, 1.7)
         total, td = L.jit_eval(loss, params, batch)
         total, td = float(total), {k: float(x) for k, x in td.items()}
+        etotal, etd = loss.evaluate(params, batch)  # eager: Python-level dictionary order is visible here
+        etd = {k: float(x) for k, x in etd.items()}
+        if any(abs(etd[k] - td[k]) > 1e-12 * (1 + abs(td[k])) for k in td):
+            v.append(V(site, "eager_terms_differ_from_jitted_terms", f"terms {terms}: eager {etd} jit {td}"))
         if not close(total, sum(td.values()), 1e-12):
             v.append(V(site, "total_is_not_the_sum_of_returned_terms", f"terms {terms}: total {total} sum {sum(td.values())} {td}"))
         for t in TERMS[case["kind"]]:
